@@ -284,6 +284,37 @@ func init() {
 			})
 		}
 		fmt.Fprintf(&sb, "def tryCloseCond : String := %q\n", closeCond)
+		// Complete: is the assignment of ctx.err guarded so that nil never replaces a recorded error?
+		cpl := FindFunc(tc, "baseTaskContext", "Complete")
+		var cplSteps []string
+		keeps := false
+		if cpl != nil {
+			for _, st := range cpl.Body.List {
+				switch x := st.(type) {
+				case *ast.AssignStmt:
+					cplSteps = append(cplSteps, c12Src(fsetTC, x))
+				case *ast.IfStmt:
+					cplSteps = append(cplSteps, "if "+c12Src(fsetTC, x.Cond))
+					cond := c12Src(fsetTC, x.Cond)
+					assigns := false
+					ast.Inspect(x.Body, func(n ast.Node) bool {
+						if as, ok := n.(*ast.AssignStmt); ok && c12Src(fsetTC, as) == "ctx.err = err" {
+							assigns = true
+						}
+						return true
+					})
+					if assigns && (cond == "err != nil || ctx.err == nil" || cond == "ctx.err == nil || err != nil") {
+						keeps = true
+					}
+				case *ast.ExprStmt:
+					if ce, ok := x.X.(*ast.CallExpr); ok {
+						cplSteps = append(cplSteps, exprName(ce.Fun))
+					}
+				}
+			}
+		}
+		fmt.Fprintf(&sb, "/-- top-level statements of baseTaskContext.Complete -/\ndef completeSteps : List String := %s\n", LeanStrList(cplSteps))
+		fmt.Fprintf(&sb, "/-- Complete assigns ctx.err only under `err != nil || ctx.err == nil` -/\ndef completeKeepsError : Bool := %v\n", keeps)
 		ar := FindFunc(tc, "baseTaskContext", "addRequests")
 		var arIncs []string
 		if ar != nil {
